@@ -50,22 +50,23 @@ type failure struct {
 
 // Summary is the per-(unit,shard) output.
 type Summary struct {
-	Property    string             `json:"property"`
-	Unit        string             `json:"unit"`
-	Shard       string             `json:"shard"`
-	Seed        uint64             `json:"seed"`
-	Evaluations int                `json:"evaluations"`
-	Skipped     int                `json:"skipped"`
-	NonTrivial  int                `json:"nontrivial"` // not de-duplicated (driver de-duplicates by hash)
-	Labels      map[string]int     `json:"labels"`
-	KnownHits   map[string]int     `json:"known_hits"`
-	Excluded    map[string]int     `json:"excluded"`
-	Samples     []json.RawMessage  `json:"samples"`
-	Failure     *failure           `json:"failure,omitempty"`
-	Exhaustive  bool               `json:"exhaustive"`
-	Completed   bool               `json:"completed"`
-	Extra       map[string]float64 `json:"extra,omitempty"`
-	Notes       []string           `json:"notes,omitempty"`
+	Property       string             `json:"property"`
+	Unit           string             `json:"unit"`
+	Shard          string             `json:"shard"`
+	Seed           uint64             `json:"seed"`
+	Evaluations    int                `json:"evaluations"`
+	Skipped        int                `json:"skipped"`
+	NonTrivial     int                `json:"nontrivial"` // not de-duplicated (driver de-duplicates by hash)
+	Labels         map[string]int     `json:"labels"`
+	KnownHits      map[string]int     `json:"known_hits"`
+	Excluded       map[string]int     `json:"excluded"`
+	Samples        []json.RawMessage  `json:"samples"`
+	Failure        *failure           `json:"failure,omitempty"`
+	Exhaustive     bool               `json:"exhaustive"`
+	DistinctNoHash int                `json:"distinct_by_construction"` // non-trivial cases of an enumeration (pairwise distinct by construction, not hashed)
+	Completed      bool               `json:"completed"`
+	Extra          map[string]float64 `json:"extra,omitempty"`
+	Notes          []string           `json:"notes,omitempty"`
 }
 
 type Recorder struct {
@@ -76,6 +77,7 @@ type Recorder struct {
 	lastFail *failure
 	outDir   string
 	maxSamp  int
+	enum     bool // cases come from an enumeration without repetition: count instead of hashing
 }
 
 func env(k, d string) string {
@@ -182,7 +184,11 @@ func (r *Recorder) Observe(caseJSON []byte, v *Verdict) bool {
 	}
 	if v.NonTrivial {
 		r.sum.NonTrivial++
-		r.hashes[hash64(caseJSON)] = struct{}{}
+		if r.enum {
+			r.sum.DistinctNoHash++
+		} else {
+			r.hashes[hash64(caseJSON)] = struct{}{}
+		}
 		if len(r.sum.Samples) < r.maxSamp && len(caseJSON) < 6000 {
 			r.sum.Samples = append(r.sum.Samples, append([]byte(nil), caseJSON...))
 		}
@@ -334,6 +340,7 @@ func Enum[C any](t *testing.T, r *Recorder, each func(yield func(C) bool), judge
 		return
 	}
 	stop := false
+	r.enum = true
 	each(func(c C) bool {
 		b, _ := json.Marshal(c)
 		v := judgeGuard(judge, c)
